@@ -164,6 +164,8 @@ Proof.
   intros H. unfold cfgs. apply in_map_iff. exists (N.to_nat c). split; [apply N2Nat.id|].
   apply in_seq. lia.
 Qed.
+Lemma forallb_cfgs (f : N -> bool) : forallb f cfgs = true -> forall c, (c < 256)%N -> f c = true.
+Proof. intros H c Hc. rewrite forallb_forall in H. apply H. now apply in_cfgs. Qed.
 Lemma in_ledges12 e : (e < 12)%N -> In e ledges12.
 Proof.
   intros H. unfold ledges12. apply in_map_iff. exists (N.to_nat e). split; [apply N2Nat.id|].
